@@ -19,6 +19,12 @@ Strings travel as `x<hex of the bytes>` (so `x` is the empty string).  Ops:
 * `http <tls> <xauthorization> <xpath> <edns> <lip> <lport> <rip>` with `<tls>` = `-` (no TLS state) | `<xsni>`:
   the request information is derived by the model of `addRequestInfo` from the raw header
 
+* `wreq <port0><blockedIP><blockedHost> <pblock> <req arguments…>` with `<pblock>` = `-` | `<xpid>` (the profile whose
+  access list blocks this request): the request through `Wrap`; answers `drop` or what `req` answers
+
+`<edns>` may hold several OPT records separated by `|` (the last one counts); both addresses are unmapped
+(`::ffff:a.b.c.d` ↦ `a.b.c.d`) before the finder sees them.
+
 `req` and `http` answer `<result> <cont> <downstream>`.
 -/
 namespace Agd.Driver.C03
@@ -87,13 +93,21 @@ def parseUserinfo (t : String) : Option (Str × Option Str) :=
   | ["p", u, p] => some (unx u, some (unx p))
   | _ => none
 
-def parseEdns (t : String) : Option (List EOpt) :=
-  if t == "-" then none
-  else if t == "e" then some []
-  else some ((t.splitOn ",").filterMap fun o =>
+def parseOPT (t : String) : List EOpt :=
+  if t == "e" then []
+  else (t.splitOn ",").filterMap fun o =>
     match o.splitOn ":" with
     | [c, d] => some { code := nat! c, data := unx d }
-    | _ => none)
+    | _ => none
+
+def parseEdns (t : String) : Option (List EOpt) :=
+  if t == "-" then none else ednsOfExtra ((t.splitOn "|").map parseOPT)
+
+def parseGate (flags pblock : String) : Gate :=
+  let f := flags.toList
+  { port0 := f.getD 0 '0' == '1', blockedIP := f.getD 1 '0' == '1', blockedHost := f.getD 2 '0' == '1',
+    profBlocks := fun i => pblock != "-" && i = unx pblock }
+
 
 def showAuthErr : AuthErr → String
   | .notDoH => "notdoh" | .noUserinfo => "nouserinfo" | .noPassword => "nopassword" | .failed => "failed"
@@ -112,6 +126,11 @@ def showResult (r : Result) : String :=
     | some (p, d) => s!"{tox p.id}/{tox d.id}"
     | none => "anon"
   s!"{head} cont={showB (continues r)} down={down}"
+
+def showServed : Served → String
+  | .dropped => "drop"
+  | .failed c => showResult (.error c)
+  | .next r => showResult r
 
 def step (s : S) : List String → S × String
   | ["srv", proto, linked, profiles] =>
@@ -140,12 +159,16 @@ def step (s : S) : List String → S × String
   | ["req", ui, path, sni, edns, lip, lport, rip] =>
     let rq : Req := { userinfo := parseUserinfo ui, path := unx path, sni := unx sni, edns := parseEdns edns,
                       lip := lip, lport := nat! lport, rip := rip }
-    (s, showResult (findIn s.profiles s.srv s.db rq))
+    (s, showResult (findIn s.profiles s.srv s.db (normAddrs rq)))
+  | ["wreq", flags, pblock, ui, path, sni, edns, lip, lport, rip] =>
+    let rq : Req := { userinfo := parseUserinfo ui, path := unx path, sni := unx sni, edns := parseEdns edns,
+                      lip := lip, lport := nat! lport, rip := rip }
+    (s, showServed (serve (parseGate flags pblock) s.profiles s.srv s.db rq))
   | ["http", tls, auth, path, edns, lip, lport, rip] =>
     let h : HttpReq := { tls := if tls == "-" then none else some (unx tls), auth := unx auth, path := unx path }
     let base : Req := { userinfo := none, path := [], sni := [], edns := parseEdns edns,
                         lip := lip, lport := nat! lport, rip := rip }
-    (s, showResult (findIn s.profiles s.srv s.db (addRequestInfo h base)))
+    (s, showResult (findIn s.profiles s.srv s.db (normAddrs (addRequestInfo h base))))
   | _ => (s, "bad-op")
 
 def main : IO Unit := loop step {}
